@@ -25,6 +25,7 @@ type VerifSent struct {
 	Peer    net.Addr
 	HasCM   bool // a control message was passed
 	IfIndex int  // its IfIndex
+	Failed  bool // the environment (VerifIO.SendErr) made this write fail
 }
 
 // VerifIO is the environment of a socket-less listener.
@@ -35,6 +36,9 @@ type VerifIO struct {
 	// interface index (0 = no control message) and the peer; ok=false ends Serve
 	// with net.ErrClosed.
 	Recv func(b []byte) (n int, ifindex int, peer *net.UDPAddr, ok bool)
+	// SendErr, if set, decides whether a write fails (environment fault): a non-nil
+	// result is returned by WriteTo instead of success.
+	SendErr func(VerifSent) error
 }
 
 var (
@@ -111,8 +115,16 @@ func (l *listener4) WriteTo(b []byte, cm *ipv4.ControlMessage, dst net.Addr) (in
 	if cm != nil {
 		s.HasCM, s.IfIndex = true, cm.IfIndex
 	}
+	var err error
+	if io.SendErr != nil {
+		err = io.SendErr(s)
+		s.Failed = err != nil
+	}
 	if io.Sent != nil {
 		io.Sent(s)
+	}
+	if err != nil {
+		return 0, err
 	}
 	return len(b), nil
 }
@@ -155,8 +167,16 @@ func (l *listener6) WriteTo(b []byte, cm *ipv6.ControlMessage, dst net.Addr) (in
 	if cm != nil {
 		s.HasCM, s.IfIndex = true, cm.IfIndex
 	}
+	var err error
+	if io.SendErr != nil {
+		err = io.SendErr(s)
+		s.Failed = err != nil
+	}
 	if io.Sent != nil {
 		io.Sent(s)
+	}
+	if err != nil {
+		return 0, err
 	}
 	return len(b), nil
 }
@@ -198,6 +218,19 @@ type VerifFrame struct {
 
 var verifFrameFn atomic.Pointer[func(VerifFrame)]
 
+// verifFrameErr is the fault the raw-socket boundary answers with while a sink is installed.
+var verifFrameErr atomic.Pointer[error]
+
+// VerifSetFrameFault makes sendEthernet fail with err after the frame was handed to the
+// sink (nil = no fault): the environment refuses the raw socket.
+func VerifSetFrameFault(err error) {
+	if err == nil {
+		verifFrameErr.Store(nil)
+		return
+	}
+	verifFrameErr.Store(&err)
+}
+
 // VerifSetFrameSink installs (or, with nil, removes) the L2 frame sink. While a sink is
 // installed sendEthernet hands it the frame instead of opening a raw socket.
 func VerifSetFrameSink(f func(VerifFrame)) {
@@ -208,11 +241,14 @@ func VerifSetFrameSink(f func(VerifFrame)) {
 	verifFrameFn.Store(&f)
 }
 
-func verifFrameSink(iface net.Interface, data []byte) bool {
+func verifFrameSink(iface net.Interface, data []byte) (bool, error) {
 	f := verifFrameFn.Load()
 	if f == nil {
-		return false
+		return false, nil
+	}
+	if e := verifFrameErr.Load(); e != nil {
+		return true, *e
 	}
 	(*f)(VerifFrame{Iface: iface, Data: append([]byte(nil), data...)})
-	return true
+	return true, nil
 }
